@@ -94,6 +94,8 @@ pub struct C16 {
     pub relative_path: bool,
     /// wall-clock script for the whole scenario (zip entries are stamped with the current time)
     pub clock: String,
+    /// the network (given as sbml) has a variable without any regulation or update function
+    pub isolated_variable: bool,
     pub ops: Vec<Op>,
 }
 
@@ -193,6 +195,7 @@ impl C16 {
             "nested_path": self.nested_path,
             "relative_path": self.relative_path,
             "clock": self.clock,
+            "isolated_variable": self.isolated_variable,
             "ops": self.ops.iter().map(|o| o.to_json()).collect::<Vec<_>>(),
         })
     }
@@ -213,6 +216,7 @@ impl C16 {
             nested_path: v["nested_path"].as_bool().unwrap_or(false),
             relative_path: v["relative_path"].as_bool().unwrap_or(false),
             clock: v["clock"].as_str().unwrap_or(crate::CLOCK_SCRIPT).to_string(),
+            isolated_variable: v["isolated_variable"].as_bool().unwrap_or(false),
             ops,
         })
     }
@@ -426,7 +430,8 @@ pub fn generate(rng: &Rng, world: &World, tier: &str) -> C16 {
         let ds: Vec<String> = (0..r.range(1, 6)).map(|_| (*r.pick(&[0i64, 1, 7, 86_400_000, -5_000, -86_400_000, 3_000_000_000])).to_string()).collect();
         format!("{base}:{}", ds.join(","))
     };
-    C16 { format, sets, formulae, cli_form, nested_path: r.chance(1, 4), relative_path: r.chance(1, 4), clock, ops }
+    let isolated_variable = format == "sbml" && r.chance(1, 4);
+    C16 { format, sets, formulae, cli_form, nested_path: r.chance(1, 4), relative_path: r.chance(1, 4), clock, isolated_variable, ops }
 }
 
 // ---------------------------------------------------------------------------------------------
@@ -452,11 +457,25 @@ fn counters_fired(before: &[u64], after: &[u64]) -> Vec<(String, u64)> {
     v
 }
 
-fn network_in_format(world: &World, format: &str) -> Result<(BooleanNetwork, String), String> {
+/// An SBML species without any transition: a network variable with neither regulations nor an
+/// update function (legal SBML-qual; the aeon format cannot express it).
+pub fn inject_isolated_species(sbml: &str, name: &str) -> String {
+    match sbml.find("</qual:listOfQualitativeSpecies>") {
+        Some(i) => format!(
+            "{}<qual:qualitativeSpecies qual:maxLevel=\"1\" qual:constant=\"false\" qual:name=\"{name}\" qual:id=\"{name}\"/>{}",
+            &sbml[..i],
+            &sbml[i..]
+        ),
+        None => sbml.to_string(),
+    }
+}
+
+fn network_in_format(world: &World, format: &str, isolated: bool) -> Result<(BooleanNetwork, String), String> {
     let bn0 = BooleanNetwork::try_from(world.model.as_str())?;
     match format {
         "sbml" => {
             let text = bn0.to_sbml(None);
+            let text = if isolated { inject_isolated_species(&text, "iso_v") } else { text };
             let (bn, _) = BooleanNetwork::try_from_sbml(&text)?;
             Ok((bn, "sbml".to_string()))
         }
@@ -696,7 +715,12 @@ impl Ctx16 {
         if context_names(&g2) != context_names(&self.graph) {
             rep.violate(
                 "context_differs_after_rebuild",
-                format!("{how}: symbolic variables after rebuild {:?}, before {:?}", context_names(&g2), context_names(&self.graph)),
+                format!(
+                    "{how}: symbolic variables after rebuild {:?}, before {:?}{}",
+                    context_names(&g2),
+                    context_names(&self.graph),
+                    if context_names(&self.graph).iter().any(|n| n == "iso_v") && !context_names(&g2).iter().any(|n| n == "iso_v") { " [isolated variable lost by the archived model]" } else { "" }
+                ),
             );
             return;
         }
@@ -857,7 +881,7 @@ fn pinned(sc: &C16, ops: Vec<Op>) -> Value {
 
 pub fn check(world: &World, sc: &C16, sandbox: &str) -> Report {
     let mut rep = Report::default();
-    let (bn, fmt) = match network_in_format(world, &sc.format) {
+    let (bn, fmt) = match network_in_format(world, &sc.format, sc.isolated_variable) {
         Ok(x) => x,
         Err(e) => {
             rep.skipped = Some(format!("network does not convert to {}: {e}", sc.format));
@@ -872,6 +896,9 @@ pub fn check(world: &World, sc: &C16, sandbox: &str) -> Report {
         }
     };
     rep.probe(&format!("format_{fmt}"), 1);
+    if sc.isolated_variable && fmt == "sbml" {
+        rep.probe("networks_with_isolated_variable", 1);
+    }
     let mut inmem = BTreeMap::new();
     for (l, spec) in &sc.sets {
         match isolated(11, || build_set(&graph, spec)) {
@@ -1438,6 +1465,11 @@ pub fn shrinks(sc: &C16) -> Vec<C16> {
     if sc.relative_path {
         let mut s = sc.clone();
         s.relative_path = false;
+        out.push(s);
+    }
+    if sc.isolated_variable {
+        let mut s = sc.clone();
+        s.isolated_variable = false;
         out.push(s);
     }
     if sc.clock != crate::CLOCK_SCRIPT {
